@@ -33,7 +33,7 @@ func TestC03Reentrancy(t *testing.T) {
 	run := vk.New("C03", "reentrancy")
 	defer run.Finish()
 	sites := []string{"handler", "ctxhandler", "asynchandler", "filter", "before", "beforectx", "after", "afterctx", "replayhandler", "asyncduringshutdown", "panichandler", "replayphase|memory", "replayphase|memory-paged", "replayphase|sqlite-mem", "replayphase|sqlite-file", "replayphase|sqlite-batch2", "replayphase|durable"}
-	calls := []string{"pub-same", "pub-other", "subscribe", "subscribectx", "unsubscribe", "clear", "clearall", "has", "count"}
+	calls := []string{"pub-same", "pub-other", "subscribe", "subscribectx", "unsubscribe", "unsubscribe-self", "clear", "clearall", "has", "count"}
 	optss := []string{"-", "once", "sequential", "async+sequential"}
 	idx := 0
 	for _, site := range sites {
@@ -91,6 +91,7 @@ func TestC03Reentrancy(t *testing.T) {
 // scenario returns "" when the re-entrant call completed and its visible effect is right.
 func scenario(site, call, opt string) string {
 	var bus *ebu.EventBus
+	var selfHandler func(rA)
 	var enteredN atomic.Int32
 	reenter := func() {
 		if enteredN.Add(1) > 1 {
@@ -107,6 +108,10 @@ func scenario(site, call, opt string) string {
 			ebu.SubscribeContext(bus, tgt1)
 		case "unsubscribe":
 			ebu.Unsubscribe[rA](bus, tgt0)
+		case "unsubscribe-self":
+			// the handler takes itself out of the registry from inside its own invocation (for the other
+			// sites: the handler that is being dispatched at that moment)
+			ebu.Unsubscribe[rA](bus, selfHandler)
 		case "clear":
 			ebu.Clear[rA](bus)
 		case "clearall":
@@ -164,12 +169,21 @@ func scenario(site, call, opt string) string {
 	if call == "unsubscribe" {
 		ebu.Subscribe(bus, tgt0)
 	}
+	selfHandler = func(rA) { reenter() }
 	switch site {
 	case "handler":
+		if call == "unsubscribe-self" {
+			ebu.Subscribe(bus, selfHandler, so...)
+			break
+		}
 		ebu.Subscribe(bus, func(rA) { reenter() }, so...)
 	case "ctxhandler":
 		ebu.SubscribeContext(bus, func(context.Context, rA) { reenter() }, so...)
 	case "asynchandler":
+		if call == "unsubscribe-self" {
+			ebu.Subscribe(bus, selfHandler, append(so, ebu.Async())...)
+			break
+		}
 		ebu.Subscribe(bus, func(rA) { reenter() }, append(so, ebu.Async())...)
 	case "filter":
 		ebu.Subscribe(bus, func(rA) {}, append(so, ebu.WithFilter(func(rA) bool { reenter(); return true }))...)
